@@ -93,9 +93,9 @@ impl<'a> Marker<'a> {
     fn loop_body_hints(&mut self, n: usize, body: &mut syn::Block) {
         if let Some(t) = self.spec.loop_end.get(&n).cloned() {
             // before a trailing `k += 1` style increment?  no: at the very end of the body
-            let m = self.marker(&t, vec![], "loop-end"); body.stmts.push(m);
+            let m = self.marker(&t, vec![format!("$loop={}", n)], "loop-end"); body.stmts.push(m);
         }
-        if let Some(t) = self.spec.loop_start.get(&n).cloned() { let m = self.marker(&t, vec![], "loop-start"); body.stmts.insert(0, m); }
+        if let Some(t) = self.spec.loop_start.get(&n).cloned() { let m = self.marker(&t, vec![format!("$loop={}", n)], "loop-start"); body.stmts.insert(0, m); }
     }
     fn marker(&mut self, template: &str, args: Vec<String>, kind: &str) -> Stmt {
         let id = self.hint_n; self.hint_n += 1;
@@ -250,6 +250,16 @@ impl<'a> VisitMut for Marker<'a> {
             let is_tail = matches!(st, Stmt::Expr(_, None)) && si + 1 == n;
             let join = is_join_stmt(&st) && !is_tail;
             let letk = let_init_key(&st);
+            if is_tail && !found_a.is_empty() {
+                // after-call anchor on a tail expression: `E`  ->  `let __tN = E; <hint with $val = __tN> __tN`
+                if let Stmt::Expr(e, None) = st {
+                    let id = quote::format_ident!("__t{}", self.hoist_n); self.hoist_n += 1;
+                    out.push(parse_quote!(let #id = #e;));
+                    for (i, mut args, recv) in found_a { let t = self.spec.after_call[i].1.clone(); if let Some(r) = recv { args.push(format!("$recv={}", r)); } args.push(format!("$val={}", id)); out.push(self.marker(&t, args, "after-call")); }
+                    out.push(Stmt::Expr(parse_quote!(#id), None));
+                }
+                continue;
+            }
             out.push(st);
             if !is_tail {
                 for (i, mut args, recv) in found_a { let t = self.spec.after_call[i].1.clone(); if let Some(r) = recv { args.push(format!("$recv={}", r)); } out.push(self.marker(&t, args, "after-call")); }
@@ -368,6 +378,26 @@ impl<'a> Gen<'a> {
         rules::clean_attrs(attrs, &mut self.rules);
         let mut path = match tyname { Some(t) => format!("{}::{}", t, fname), None => fname.clone() };
         if let Some((_, nn)) = rename { sig.ident = syn::Ident::new(nn, sig.ident.span()); path = format!("{}::{}", tyname.unwrap(), nn); }
+        // rule M (callee side): the instance of a function with an `impl Iterator` parameter for a materialised vector
+        let mut mono_params: Vec<String> = vec![];
+        if let Some((_, pname)) = unit.mono_vec.iter().find(|(f, _)| *f == path) {
+            let nn = format!("{}__vec", sig.ident);
+            sig.ident = syn::Ident::new(&nn, sig.ident.span());
+            path = match tyname { Some(t) => format!("{}::{}", t, nn), None => nn };
+            for a in sig.inputs.iter_mut() {
+                if let syn::FnArg::Typed(pt) = a {
+                    if pt.pat.to_token_stream().to_string() == *pname {
+                        // &mut impl Iterator<Item = T>  ->  &Vec<T>
+                        let tys = pt.ty.to_token_stream().to_string();
+                        let item = tys.split("Item =").nth(1).map(|x| x.trim().trim_end_matches('>').trim().to_string()).expect("mono-vec: no Item type");
+                        let nt: syn::Type = syn::parse_str(&format!("&Vec<{}>", item)).expect("mono-vec type");
+                        *pt.ty = nt;
+                        mono_params.push(pname.clone());
+                        *self.rules.dropped.entry("M:mono-vec".into()).or_default() += 1;
+                    }
+                }
+            }
+        }
         let spec = unit.fns.get(&path).cloned().unwrap_or_default();
         let mut fo = FnOut { path: path.clone(), src: src.to_string(), src_line, contract_only, from_unit: unit.name.clone(), hints: 0, hint_kinds: BTreeMap::new(), loops: 0, return_points: 0, probes: vec![], lowered_sites: 0 };
         if !contract_only && (unit.refcell_mut_fns.contains(&path) || unit.refcell_mut_unless.iter().any(|(feat, f)| f == &path && !self.features.contains(feat))) { if let Some(syn::FnArg::Receiver(r)) = sig.inputs.first_mut() { *r = parse_quote!(&mut self); } }
@@ -377,6 +407,7 @@ impl<'a> Gen<'a> {
         } else {
             rules::BodyRules { rules: &mut self.rules, unit, features: self.features, tyname: tyname.map(|s| s.to_string()), fnpath: path.clone() }.visit_block_mut(block);
             let vec_params: Vec<String> = sig.inputs.iter().filter_map(|a| match a { syn::FnArg::Typed(pt) => { let ty = pt.ty.to_token_stream().to_string(); if ty.starts_with("Vec <") { Some(pt.pat.to_token_stream().to_string()) } else { None } } _ => None }).collect();
+            let mut vec_params = vec_params; vec_params.extend(mono_params.iter().cloned());
             let mut l = lower::Lower::new(vec_params);
             l.visit_block_mut(block);
             fo.lowered_sites = l.sites;
@@ -431,6 +462,7 @@ impl<'a> Gen<'a> {
                         }
                         (Item::Enum(s), Take::Item { kind, name }) if kind == "enum" && s.ident == name => {
                             rules::clean_attrs(&mut s.attrs, &mut self.rules);
+                            if unit.no_structural.contains(name) { rules::strip_derives(&mut s.attrs, &["Structural", "PartialEq", "Eq"]); }
                             for v in s.variants.iter_mut() { rules::clean_attrs(&mut v.attrs, &mut self.rules); for f in v.fields.iter_mut() { rules::clean_attrs(&mut f.attrs, &mut self.rules); } }
                             s.vis = parse_quote!(pub);
                             s.to_tokens(&mut self.items_ts); matched = true;
@@ -492,7 +524,7 @@ impl<'a> Gen<'a> {
                 // every function named in an impl take must have been found
                 if let Take::Impl { header, fns, .. } = take {
                     for f in fns { if f != "*" && f != "consts" {
-                        let ok = self.fns.iter().any(|fo| fo.src == *src && (fo.path.ends_with(&format!("::{}", f)) || take_renamed(take).map(|n| fo.path.ends_with(&format!("::{}", n))).unwrap_or(false)));
+                        let ok = self.fns.iter().any(|fo| fo.src == *src && (fo.path.ends_with(&format!("::{}", f)) || fo.path.ends_with(&format!("::{}__vec", f)) || take_renamed(take).map(|n| fo.path.ends_with(&format!("::{}", n))).unwrap_or(false)));
                         if !ok { eprintln!("vx: LOST ANCHOR: fn {} of impl {} not found in {}", f, header, src); std::process::exit(2); }
                     } }
                 }
@@ -522,7 +554,8 @@ fn main() {
         let drop: Vec<usize> = fs.loops_cond.iter().filter(|(_, c)| { let (neg, f) = match c.strip_prefix('!') { Some(f) => (true, f.to_string()), None => (false, c.to_string()) }; features.contains(&f) == neg }).map(|(n, _)| *n).collect();
         for n in drop { fs.loops.remove(&n); }
     }
-    let mut gen = Gen { repo, features: &features, probes, rules: rules::Rules::default(), items_ts: TokenStream::new(), all_hints: vec![], hint_base: 0, probe_n: 1, fns: vec![], specs: BTreeMap::new() };
+    let mut rules0 = rules::Rules::default(); rules0.extra_drop_derives = unit.drop_derives.clone();
+    let mut gen = Gen { repo, features: &features, probes, rules: rules0, items_ts: TokenStream::new(), all_hints: vec![], hint_base: 0, probe_n: 1, fns: vec![], specs: BTreeMap::new() };
     let mut pre: Vec<String> = vec![];
     let mut inside: Vec<String> = vec![];
     for imp in &unit.imports {
@@ -547,6 +580,39 @@ fn main() {
     let lines: Vec<String> = formatted.lines().map(|s| s.to_string()).collect();
     let hints: BTreeMap<usize, &HintInst> = gen.all_hints.iter().map(|h| (h.id, h)).collect();
     let fn_by_path: BTreeMap<String, &FnOut> = gen.fns.iter().map(|f| (f.path.clone(), f)).collect();
+    // pre-pass: generated loop-local names per (function, loop ordinal)
+    let mut loop_names: BTreeMap<(String, usize), BTreeMap<String, String>> = BTreeMap::new();
+    {
+        let mut cf = String::new();
+        for (li, l) in lines.iter().enumerate() {
+            let t = l.trim();
+            if let Some(rest) = t.strip_prefix("__vx_fn!(\"") { cf = rest.trim_end_matches("\");").to_string(); }
+            if let Some(rest) = t.strip_prefix("__vx_loop!(") {
+                let n: usize = rest.trim_end_matches(");").parse().unwrap();
+                // the names marker follows (possibly after a loop-start hint marker)
+                for lj in li + 1..(li + 4).min(lines.len()) {
+                    let u = lines[lj].trim();
+                    if let Some(r) = u.strip_prefix("__vx_names!(") {
+                        let mut mp = BTreeMap::new();
+                        for pair in r.trim_end_matches(");").split(',') { if let Some((a, b)) = pair.split_once('=') { mp.insert(a.trim().to_string(), b.trim().to_string()); } }
+                        loop_names.insert((cf.clone(), n), mp);
+                        break;
+                    }
+                    if !u.starts_with("__vx_hint!(") { break; }
+                }
+            }
+        }
+    }
+    let subst_names = |text: &str, f: &str, cur: Option<usize>| -> String {
+        let mut s = text.to_string();
+        // $name@N first, then plain $name for the current loop
+        for ((ff, n), mp) in &loop_names { if ff == f { for (a, b) in mp { s = s.replace(&format!("${}@{}", a, n), b); } } }
+        if let Some(c) = cur { if let Some(mp) = loop_names.get(&(f.to_string(), c)) {
+            let mut keys: Vec<&String> = mp.keys().collect(); keys.sort_by(|a, b| b.len().cmp(&a.len()));
+            for a in keys { s = replace_word(&s, &format!("${}", a), &mp[a]); }
+        } }
+        s
+    };
     let mut cur_fn: Option<String> = None;
     let mut out: Vec<String> = vec![];
     let mut i = 0;
@@ -590,6 +656,7 @@ fn main() {
             }
             i += 1; continue;
         }
+        if t.starts_with("__vx_names!(") { i += 1; continue; }
         if let Some(rest) = t.strip_prefix("__vx_loop!(") {
             let n: usize = rest.trim_end_matches(");").parse().unwrap();
             let spec = cur_fn.as_ref().and_then(|f| gen.specs.get(f)).cloned().unwrap_or_default();
@@ -599,7 +666,7 @@ fn main() {
                 let hl = out[h].clone();
                 let cut = hl.rfind('{').unwrap();
                 out[h] = hl[..cut].trim_end().to_string();
-                out.push(cfg_filter_text(ls, &features).trim_end().to_string());
+                out.push(subst_names(&cfg_filter_text(ls, &features), cur_fn.as_ref().unwrap(), Some(n)).trim_end().to_string());
                 out.push("        {".to_string());
                 *loop_specs_used.entry(cur_fn.clone().unwrap()).or_default() += 1;
             }
@@ -616,7 +683,8 @@ fn main() {
             for (n, v) in &named { s = s.replace(n.as_str(), v); }
             for (k, a) in positional.iter().enumerate().rev() { s = s.replace(&format!("${}", k), a); }
             s = s.replace("$ret", "__ret");
-            let mut s = cfg_filter_text(&s, &features);
+            let cur_loop: Option<usize> = h.args.iter().find_map(|a| a.strip_prefix("$loop=").and_then(|x| x.parse().ok()));
+            let mut s = subst_names(&cfg_filter_text(&s, &features), cur_fn.as_ref().map(|x| x.as_str()).unwrap_or(""), cur_loop);
             if *shared_recv.get(cur_fn.as_ref().unwrap_or(&String::new())).unwrap_or(&false) { s = s.replace("*old(self)", "*self").replace("old(self)", "self"); }
             if !s.trim().is_empty() { out.push(format!("// @vx hint {} {}", h.kind, id)); out.push(s.trim_end().to_string()); out.push("// @vx endhint".to_string()); }
             if h.kind == "return" {
@@ -683,6 +751,7 @@ fn main() {
             ("hint_asserts", J::n(count_asserts(spec, f))),
             ("return_points", J::n(f.return_points)), ("lowered_sites", J::n(f.lowered_sites)),
             ("probes", J::A(f.probes.iter().map(|p| J::n(*p)).collect())),
+            ("loop_names", J::O(loop_names.iter().filter(|((ff, _), _)| *ff == f.path).map(|((_, n), mp)| (n.to_string(), J::O(mp.iter().map(|(a, b)| (a.clone(), J::s(b))).collect()))).collect())),
         ]));
     }
     // trusted scan of the generated text
@@ -760,6 +829,21 @@ fn cfg_filter_text(text: &str, feats: &[String]) -> String {
     out.join("\n")
 }
 
+// replace `pat` (e.g. `$k`) only where it is not followed by an identifier character or `@`
+fn replace_word(s: &str, pat: &str, to: &str) -> String {
+    let mut out = String::new();
+    let mut rest = s;
+    while let Some(p) = rest.find(pat) {
+        let mut it = rest[p + pat.len()..].chars();
+        let after = it.next(); let after2 = it.next();
+        out.push_str(&rest[..p]);
+        let is_ref = after == Some('@') && after2.map(|c| c.is_ascii_digit()).unwrap_or(false);
+        if after.map(|c| c.is_alphanumeric() || c == '_').unwrap_or(false) || is_ref { out.push_str(pat); } else { out.push_str(to); }
+        rest = &rest[p + pat.len()..];
+    }
+    out.push_str(rest);
+    out
+}
 // `final(x)` -> `x`, result name -> `__ret` (identifier-boundary aware)
 fn autopost_text(clause: &str, rname: &str) -> String {
     let mut s = String::new();
